@@ -50,3 +50,15 @@ fn muxer(codec: VideoCodec, out: &mut Vec<u8>) -> Muxer<&mut Vec<u8>> { MuxerBui
     m.finish().unwrap();
     assert!(t0.elapsed().as_secs() < 5);
 }
+
+#[test]
+fn av1_sequence_header_with_reserved_profile_is_an_error_not_a_panic() {
+    // OBU header 0x0A = sequence header with size field; size 2; payload starts with profile bits 111
+    let frame = [0x0A, 0x02, 0xE0, 0x00];
+    assert!(muxide::codec::av1::extract_av1_config(&frame).is_none());
+    let mut m = muxide::api::MuxerBuilder::new(Vec::new())
+        .video(muxide::api::VideoCodec::Av1, 640, 480, 30.0)
+        .build()
+        .unwrap();
+    assert!(m.write_video(0.0, &frame, true).is_err());
+}
